@@ -29,7 +29,8 @@ RULE = ('case family drawn per case: 40% Fresnel batches (5 index pairs n1,n2 in
         'linear/quarter/half-wave retarders and the linear diattenuator at a random angle in (-pi,pi) or a special '
         'angle, random retardance in [-4pi,4pi], 0<=t_min<=t_max<=1, 1-4 rays), 30% lens traces (axially symmetric '
         '2-7 interface lenses from the constraint-based generator, spheres/conics/even aspheres, optional mirrors, '
-        'optional surface tilts, ideal non-absorbing media, no physical apertures; uncoated, or coated with Fresnel / '
+        'optional surface tilts, a share of curved dummy (air|air) surfaces and curved image surfaces, ideal '
+        'non-absorbing media, no physical apertures; uncoated, or coated with Fresnel / '
         'SimpleCoating mixes; fields on and off axis; hexapolar/uniform/cross/line pupils; random (Ex,Ey,phase) '
         'states, the six named states and unpolarized). Non-trivial: a Fresnel batch with an angle > 20deg, an '
         'element case whose angle is not a multiple of 90deg, a trace with >= 2 refracting surfaces and >= 10 finite '
@@ -37,8 +38,8 @@ RULE = ('case family drawn per case: 40% Fresnel batches (5 index pairs n1,n2 in
 TIERS = {'quick': dict(shards=8, cases=220), 'thorough': dict(shards=16, cases=1500)}
 MIN_NONTRIVIAL = {'quick': 1200, 'thorough': 16000}
 MIN_EVALS = {
-    'fresnel-energy-s': {'quick': 1800, 'thorough': 60000}, 'fresnel-energy-p': {'quick': 1800, 'thorough': 60000},
-    'fresnel-brewster': {'quick': 1800, 'thorough': 60000}, 'fresnel-normal': {'quick': 1800, 'thorough': 60000},
+    'fresnel-energy-s': {'quick': 1800, 'thorough': 30000}, 'fresnel-energy-p': {'quick': 1800, 'thorough': 30000},
+    'fresnel-brewster': {'quick': 1800, 'thorough': 30000}, 'fresnel-normal': {'quick': 1800, 'thorough': 30000},
     'uncoated-intensity-preserved': {'quick': 1300, 'thorough': 18000},
     'field-transverse': {'quick': 130, 'thorough': 1800},
     'unpolarized-is-mean': {'quick': 800, 'thorough': 10000},
@@ -98,6 +99,40 @@ M_NOISE = 'near-parallel-k-noise'
 
 
 # ---------------------------------------------------------------------------------------------- generation
+
+def _singlet(**kw):
+    spec = dict(obj_t='inf', obj_n='air', surfaces=[
+        dict(type='standard', radius=50.0, medium={'n': 1.5}, t=5.0, stop=True),
+        dict(type='standard', radius=-50.0, medium='air', t=47.0),
+        dict(type='standard', radius='inf', medium='air', t=0.0)],
+        wavelengths=[[0.55, True]], telecentric=False, polarization='ignore', field_type='angle',
+        aperture=['EPD', 10.0], fields=[[0.0, 0.0, 0.0], [5.0, 0.0, 0.0]])
+    if 'image_radius' in kw:
+        spec['surfaces'][2]['radius'] = kw['image_radius']
+    if 'rx' in kw:
+        spec['surfaces'][1]['rx'] = kw['rx']
+    if kw.get('fresnel'):
+        spec['surfaces'][0]['coating'] = spec['surfaces'][1]['coating'] = 'fresnel'
+    st = [dict(is_polarized=True, Ex=1.0, Ey=0.0, phase_x=0.0, phase_y=0.0, gamma=0.0),
+          dict(is_polarized=True, Ex=0.6, Ey=0.8, phase_x=0.3, phase_y=-1.1, gamma=0.7),
+          dict(is_polarized=True, Ex=1.0, Ey=1.0, phase_x=0.0, phase_y=math.pi / 2, gamma=0.0)]
+    return dict(kind='trace', mode='coated' if kw.get('fresnel') else 'uncoated', tilted='rx' in kw, spec=spec,
+                info=dict(mirrors=0, finite=False), Hx=0.0, Hy=1.0, wavelength=0.55, distribution='hexapolar',
+                num_rays=3, states=st)
+
+
+def fixed_cases(tier):
+    """Hand-written minimal cases: a plain biconvex singlet (uncoated / Fresnel), the same with a curved image
+    surface and with a tilted second surface, the diattenuator of the repository's own test, an air-glass
+    Fresnel batch through Brewster's angle."""
+    tb = math.atan(1.5)
+    return [_singlet(), _singlet(fresnel=True), _singlet(image_radius=-40.0), _singlet(rx=0.1),
+            dict(kind='element', theta=0.5, retardance=0.5, t_min=0.2, t_max=1.0, nrays=1),
+            dict(kind='element', theta=0.0, retardance=math.pi / 2, t_min=0.0, t_max=1.0, nrays=1),
+            dict(kind='fresnel', wavelength=0.55, pairs=[
+                dict(n1=1.0, n2=1.5, aoi=[0.0, 0.3, 0.6, tb, 1.0, 1.2, 1.4, 1.5, 1.55, 1.57]),
+                dict(n1=1.5, n2=1.0, aoi=[0.0, 0.1, 0.2, 0.3, 0.4, 0.5, math.atan(1 / 1.5), 0.65, 0.7, 0.729])])]
+
 
 def _gen_fresnel(rng):
     pairs = []
